@@ -259,6 +259,15 @@ func add(a, b string) string {
 	}
 	return "(+ " + a + " " + b + ")"
 }
+// idxT: position off+i of a slice element inside its backing array, written with the uninterpreted
+// wrapper idx (axiom: idx(o,i) = o+i) so that quantifier triggers contain no arithmetic.
+func idxT(off, i string) string {
+	if off == "0" {
+		return i
+	}
+	return "(idx " + off + " " + i + ")"
+}
+
 func sub(a, b string) string {
 	if b == "0" {
 		return a
